@@ -25,8 +25,11 @@ Print Assumptions C09_ipos_inv.
 
 (* A Read issued after any history, under any fault pattern: it does not panic or loop ([read_fuel] suffices) and
    (read_post) the bytes are exactly blob[pos, pos+n), the position advances by n; without error n = min(len, L-pos);
-   io.EOF iff pos = L at entry (then n = 0); any other error is a store failure that happened during this very
-   call, and the bytes reported with it are still the blob's.  H is arbitrary: "or H has a collision". *)
+   io.EOF iff pos = L at entry (then n = 0) -- also when the store itself fails with the value io.EOF
+   (code_bare_eof: Read reports io.ErrUnexpectedEOF) or with an error that wraps io.EOF (code_wrapped_eof: passed
+   through, it is not the value io.EOF); any other error is [read_err (store_err c)] for a store failure c that
+   happened during this very call, and the bytes reported with it are still the blob's.  H is arbitrary: "or H has a
+   collision". *)
 Theorem C09_read_refines_blob : forall H maxsz idx blob store ops plen,
   index_describes H idx blob -> store_sound H store ->
   let nc := new_null_chunk H maxsz in
@@ -138,3 +141,20 @@ Example C09_example_fuse :
          [(0%nat, 5, 4%nat); (1%nat, 0, 2%nat); (0%nat, 1, 3%nat); (1%nat, 7, 3%nat); (0%nat, 8, 1%nat); (2%nat, 0, 1%nat)]) =
   [Some (FData [0; 9]%N); Some FEIO; Some (FData [6; 0; 0]%N); Some (FData []); Some FEIO; None].
 Proof. vm_compute. reflexivity. Qed.
+
+(* A store that fails with io.EOF itself (call 0) and with a wrapped io.EOF (call 1): Read reports
+   io.ErrUnexpectedEOF resp. the wrapped error -- never io.EOF before the end -- and the FUSE read answers EIO both
+   times, then the data. *)
+Definition ex_store_eof : store_t := fun k i =>
+  if (k =? 0)%nat then SFail code_bare_eof else if (k =? 1)%nat then SFail code_wrapped_eof
+  else match find (fun r => N.eqb (r_id r) i) ex_idx with
+       | Some r => SData (chunk_of ex_blob r)
+       | None => SFail 1
+       end.
+Example C09_example_store_eof :
+  snd (run_ops ex_store_eof (new_null_chunk ex_H 2) ex_idx (new_ipos ex_idx, 0%nat) [ORead 3; ORead 3; ORead 3]) =
+  [RRead [] (Some EUnexpectedEOF); RRead [] (Some (EStore code_wrapped_eof)); RRead [5; 6; 0]%N None] /\
+  snd (fuse_run ex_store_eof (new_null_chunk ex_H 2) ex_idx (fuse_open ex_idx 1)
+         [(0%nat, 0, 3%nat); (0%nat, 0, 3%nat); (0%nat, 0, 3%nat)]) =
+  [Some FEIO; Some FEIO; Some (FData [5; 6; 0]%N)].
+Proof. vm_compute. split; reflexivity. Qed.
